@@ -18,12 +18,12 @@ instance : Div GQ where
 
 def cfgQ (tol : ℚ) : Cfg ℚ :=
   { cj := id, re := id, im := fun _ => 0, lt := fun a b => decide (a < b), tol2 := tol * tol,
-    eps2 := 1 / (10 : ℚ) ^ 20 }
+    eps2 := 1 / (10 : ℚ) ^ 20, scale := fun _ => 1 }
 
 def cfgQI (tol : ℚ) : Cfg GQ :=
   { cj := fun z => ⟨z.re, -z.im⟩, re := fun z => ⟨z.re, 0⟩, im := fun z => ⟨z.im, 0⟩,
     lt := fun a b => decide (a.re < b.re), tol2 := ⟨tol * tol, 0⟩,
-    eps2 := ⟨1 / (10 : ℚ) ^ 20, 0⟩ }
+    eps2 := ⟨1 / (10 : ℚ) ^ 20, 0⟩, scale := fun _ => 1 }
 
 section generic
 variable {α : Type} [CommRing α] [Div α] [DecidableEq α]
